@@ -27,7 +27,7 @@ def ratAbs (r : Rat) : Rat := if r < 0 then -r else r
 def pow2 (e : Int) : Rat := if e ≥ 0 then ((2 ^ e.toNat : Nat) : Rat) else 1 / ((2 ^ (-e).toNat : Nat) : Rat)
 
 /-- Σ cᵢ xⁱ and Σ |cᵢ||x|ⁱ, and whether every partial term is 0 or of moderate magnitude -/
-def polySums (cs : List Rat) (x : Rat) : Rat × Rat × Bool :=
+def polySums (cs : List Rat) (x : Rat) (barePowers : Bool := true) : Rat × Rat × Bool :=
   let lo := pow2 (-900)
   let hi := pow2 900
   let rec go (cs : List Rat) (xp : Rat) (s sa : Rat) (ok : Bool) : Rat × Rat × Bool :=
@@ -36,7 +36,8 @@ def polySums (cs : List Rat) (x : Rat) : Rat × Rat × Bool :=
     | c :: rest =>
       let t := c * xp
       let ta := ratAbs t
-      let okT := (ta == 0 || (lo ≤ ta && ta ≤ hi)) && (ratAbs xp == 0 || (lo ≤ ratAbs xp && ratAbs xp ≤ hi))
+      let okT := (ta == 0 || (lo ≤ ta && ta ≤ hi)) && (barePowers == false || ratAbs xp == 0 || (lo ≤ ratAbs xp && ratAbs xp ≤ hi))
+        && (ratAbs c == 0 || (lo ≤ ratAbs c && ratAbs c ≤ hi))
       go rest (xp * x) (s + t) (sa + ta) (ok && okT)
   go cs 1 0 0 true
 
@@ -49,8 +50,12 @@ def eval (tag : Option String) (nums : List FX) (x : FX) (impl : Out) : Option S
       match nums.mapM (fun n => (unv n).bind F64.toRat?), (unv x).bind F64.toRat?, impl with
       | some cs, some xr, .nums [.v y] =>
         if cs.isEmpty then (if y = F64.zero false then none else some "empty PolyN must evaluate to +0")
+        else if cs.length > 300 then none   -- exact rational partial sums of a very long polynomial cost seconds per case: bit-exact correspondence only
         else
-        let (s, sa, ok) := polySums cs xr
+        -- the property's range: no partial term c_i x^i over/underflows.  The fixed-degree forms use Estrin schemes whose
+        -- bare powers x^2, x^4, x^8 are intermediate terms as well (they are part of the window); `PolyN` is Horner, which
+        -- forms no bare power: for it the window is on the coefficients and the partial terms alone
+        let (s, sa, ok) := polySums cs xr (barePowers := t != "pn")
         if !ok then none else
         match y.toRat? with
         | none => some s!"non-finite result {y.toHex} for finite moderate inputs"
@@ -162,13 +167,16 @@ def merge (f g : List (FX × List FX)) (isSub : Bool) (impl : Out) : Option Stri
       | some re =>
         if rs.isEmpty then some "empty result"
         else if rs.length + 1 > fe.length + ge.length then some "more than len f + len g - 1 pieces"
-        else if !(re.all fun e => fe.contains e || ge.contains e) then some "a breakpoint that is in neither operand"
+        else if fe.length + ge.length ≤ 2000 && !(re.all fun e => fe.contains e || ge.contains e) then some "a breakpoint that is in neither operand"
         else if !sortedEnds re then some "result breakpoints are not non-decreasing"
         else
           -- pointwise on index-revealing pieces: at every breakpoint class of either operand
           match revealK f, revealK g, revealK rs with
           | some fk, some gk, some rk =>
-            let pts := (fe ++ ge).flatMap (fun e => [F64.nextDown e, e, F64.nextUp e]) ++ [F64.inf true, F64.inf false]
+            let pts0 := (fe ++ ge).flatMap (fun e => [F64.nextDown e, e, F64.nextUp e]) ++ [F64.inf true, F64.inf false]
+            -- very long operands: a stride sample of about 1500 of the points (each costs three linear selections)
+            let stride := pts0.length / 1500 + 1
+            let pts := if stride ≤ 1 then pts0 else (pts0.zipIdx.filter fun (_, i) => i % stride == 0 || i % stride == 1 || i % stride == 2).map (·.1)
             pts.findSome? fun x =>
               match selR fk x, selR gk x, selR rk x with
               | some a, some b, some r =>
@@ -275,8 +283,15 @@ def segsRat (l : List (FX × List FX)) : Option (List (F64 × List Rat)) :=
 
 def rmax (a b : Rat) : Rat := if a < b then b else a
 
-/-- C06 -/
-def linear (ks : List (Knot FX)) (impl : Out) : Option String :=
+/-- every non-zero magnitude of the list lies in [2^-w, 2^w] -/
+def inWindow (w : Int) (l : List Rat) : Bool :=
+  l.all fun t => let a := ratAbs t; a == 0 || (pow2 (-w) ≤ a && a ≤ pow2 w)
+
+/-- C06.  `win`: judge only data whose magnitudes (coordinates, gaps, ordinate differences) lie in 2^±300, the range in
+which no intermediate of the construction (dx, dy, dy/dx, slope·x0) can overflow or underflow; outside it the
+implementation is known not to satisfy the literal statement (known_findings.json), and the bit-exact correspondence
+is what is checked there. -/
+def linear (ks : List (Knot FX)) (impl : Out) (win : Bool := true) : Option String :=
   if ks.length < 2 then (match impl with | .panic => none | _ => some "fewer than 2 knots must be rejected")
   else
   match impl with
@@ -284,6 +299,13 @@ def linear (ks : List (Knot FX)) (impl : Out) : Option String :=
   | .segs rs =>
     if rs.length + 1 != ks.length then some "not one segment per consecutive knot pair" else
     match ks.mapM (fun k => unv k.x), ks.mapM (fun k => unv k.y), segsRat rs with
+    | some xs, some ys, none =>
+      -- finite data inside the window must give finite coefficients
+      (match xs.mapM F64.toRat?, ys.mapM F64.toRat? with
+       | some fx, some fy =>
+         if (!win || inWindow 300 (fx ++ fy ++ (List.zip fx fx.tail).map (fun (a, b) => b - a) ++ (List.zip fy fy.tail).map (fun (a, b) => b - a)))
+         then some "non-finite coefficient or breakpoint for finite knots" else none
+       | _, _ => none)
     | some xs, some ys, some segs =>
       if xs.any F64.isNaN then none else
       -- forced abscissae: running maximum (f64::max)
@@ -293,6 +315,8 @@ def linear (ks : List (Knot FX)) (impl : Out) : Option String :=
       match forced.mapM F64.toRat?, ys.mapM F64.toRat? with
       | some fx, some fy =>
         let rows := List.zip (List.zip (List.zip fx fx.tail) (List.zip fy fy.tail)) (List.zip (List.zip forced forced.tail) segs)
+        let mags := fx ++ fy ++ (List.zip fx fx.tail).map (fun (a, b) => b - a) ++ (List.zip fy fy.tail).map (fun (a, b) => b - a)
+        if win && !inWindow 300 mags then none else
         rows.findSome? fun (((x0, x1), (y0, y1)), ((f0, f1), (_, cs))) =>
           let dx := F64.sub f1 f0
           let narrow := F64.lt dx F64.epsilon
@@ -325,8 +349,11 @@ def quadMinSigned (q : List Rat) (a b sg : Rat) : Rat :=
       if a < v && v < b && f v < m then f v else m
   | _ => m
 
-/-- C04 + C05 -/
-def spline (ks : List (Knot FX)) (impl : Out) : Option String :=
+/-- C04 + C05.  `win`: judge only data whose magnitudes (coordinates, gaps, ordinate differences) lie in 2^±150, the
+range in which no intermediate of the construction (secant slopes and their product, reciprocals, dx², dx³, x0³·d) can
+overflow or underflow; outside it the implementation is known not to satisfy the literal statement
+(known_findings.json), and the bit-exact correspondence is what is checked there. -/
+def spline (ks : List (Knot FX)) (impl : Out) (win : Bool := true) : Option String :=
   if ks.length < 3 then (match impl with | .panic => none | _ => some "fewer than 3 knots must be rejected")
   else
   match impl with
@@ -337,6 +364,7 @@ def spline (ks : List (Knot FX)) (impl : Out) : Option String :=
     | some xs, some kr, some segs =>
       if (segs.map (·.1)) != xs.tail then some "segment ends are not the right abscissae verbatim" else
       if !(List.zip kr kr.tail).all (fun (a, b) => a.1 < b.1) then none else
+      if win && !inWindow 150 (kr.map (·.1) ++ kr.map (·.2) ++ (List.zip kr kr.tail).map (fun (a, b) => b.1 - a.1) ++ (List.zip kr kr.tail).map (fun (a, b) => b.2 - a.2)) then none else
       let n := kr.length
       -- exact slopes at every knot
       let mid := (List.zip (List.zip kr kr.tail) kr.tail.tail).map fun ((a, b), c) => fdxRat a b c
@@ -375,6 +403,7 @@ def spline (ks : List (Knot FX)) (impl : Out) : Option String :=
           then some "first derivative jumps at an interior knot" else none
     | some _, some kr, none =>
       -- the data are finite: a NaN / infinite coefficient for strictly increasing abscissae is a violation
+      if win && !inWindow 150 (kr.map (·.1) ++ kr.map (·.2) ++ (List.zip kr kr.tail).map (fun (a, b) => b.1 - a.1) ++ (List.zip kr kr.tail).map (fun (a, b) => b.2 - a.2)) then none else
       if (List.zip kr kr.tail).all (fun (a, b) => a.1 < b.1) then some "non-finite coefficient for finite knots with strictly increasing abscissae"
       else none
     | _, _, _ => none
@@ -413,6 +442,10 @@ def calculus (cmd : String) (tag : Option String) (nums : List FX) (knot : List 
             else if oc.tail != (match (F64.zero false :: cs.zipIdx.map fun (c, i) => if i == 0 then c else F64.div c (F64.ofDec ((i : Nat) + 1) 0)).tail.mapM F64.toRat? with | some l => l | none => [])
               then some "integral(knot) differs from indefinite() in more than the constant term"
             else none
+          | none, some kn, some cr =>
+            -- finite inputs of moderate magnitude (2^±100: no power of knot.x times a coefficient can overflow) must give
+            -- finite coefficients
+            if inWindow 100 (kn ++ cr) then some "integral(knot) has a non-finite coefficient for finite inputs of moderate magnitude" else none
           | _, _, _ => none
         else none
     | _, _ => none
@@ -466,7 +499,10 @@ def pwIntegral (cmd : String) (tag : Option String) (src : List (FX × List FX))
                 match e.toRat? with
                 | some er => if ratAbs (evalPolyRat ca er - evalPolyRat cb er) > tol then some "adjacent pieces disagree at an interior breakpoint" else none
                 | none => none
-      | _, _ => none
+      | none, kn =>
+        -- finite source pieces, breakpoints and knot of moderate magnitude must give finite pieces
+        let nums := ss.flatMap (fun (e, cs) => (match e.toRat? with | some r => [r] | none => []) ++ cs) ++ kn.getD []
+        if ss.all (fun (e, _) => e.toRat?.isSome) && inWindow 100 nums then some "integral has a non-finite coefficient for finite pieces, breakpoints and knot of moderate magnitude" else none
     | _, _ => none
   | none => none
 
